@@ -30,6 +30,21 @@ struct VerifNondetRng {
 using namespace cluster_linearize;
 using S = bitset_detail::IntBitSet<uint8_t>;
 
+// libstdc++ growth policy stub: the first reallocation of these vectors allocates VCAP elements at once and a second one is asserted not to happen. Capacity is
+// unobservable for the code under test; without this, every push_back site carries a symbolic-size reallocation-and-copy path.
+#define VCAP 8
+#define VERIF_VECTOR_PREALLOC(T)                                                                                              \
+    template <> template <> void std::vector<T>::_M_realloc_insert<T>(iterator pos, T&& x)                                       \
+    {                                                                                                                         \
+        VASSERT(this->_M_impl._M_start == nullptr && pos.base() == nullptr, "vector grows at most once (preallocated capacity suffices)"); \
+        VASSUME(this->_M_impl._M_start == nullptr);                                                                           \
+        T* mem = static_cast<T*>(::operator new(sizeof(T) * VCAP));                                                           \
+        ::new ((void*)mem) T(std::move(x));                                                                                   \
+        this->_M_impl._M_start = mem; this->_M_impl._M_finish = mem + 1; this->_M_impl._M_end_of_storage = mem + VCAP;        \
+    }
+VERIF_VECTOR_PREALLOC(FeeFrac)
+VERIF_VECTOR_PREALLOC(SetInfo<S>)
+
 #ifndef FB   // fee bits (signed): fee in [-2^(FB-1), 2^(FB-1))
 #define FB 6
 #endif
@@ -39,9 +54,16 @@ using S = bitset_detail::IntBitSet<uint8_t>;
 #define MAXN 5
 
 struct Pt { int32_t x, y; };
-// exact for the small operands of the oracle (|fee sums| < 2^12, size sums < 2^8); written with wrapping unsigned arithmetic so that no overflow instrumentation
-// (which would widen every product to 128 bits) is attached to the oracle's own arithmetic
-static inline int32_t mul(int32_t a, int32_t b) { return (int32_t)((uint32_t)a * (uint32_t)b); }
+// Oracle product. Operands are small by construction (|fee sums| < 2^9, size sums < 2^6); the product is formed from 10-bit magnitudes so that the multiplier in the
+// formula is 10x10 bits instead of 32x32 (or 128x128 with overflow instrumentation). The magnitude bound is asserted, not assumed.
+static bool g_mul_in_range = true;
+static inline int32_t mul(int32_t a, int32_t b)
+{
+    const uint32_t ma = (uint32_t)(a < 0 ? -a : a), mb = (uint32_t)(b < 0 ? -b : b);
+    if (ma >= 1024 || mb >= 1024) g_mul_in_range = false;
+    const uint32_t p = (ma & 1023) * (mb & 1023);
+    return ((a < 0) != (b < 0)) ? -(int32_t)p : (int32_t)p;
+}
 struct Cluster {
     int n;
     int32_t fee[MAXN], size[MAXN];
@@ -154,7 +176,7 @@ static void sym_perm(const Cluster& c, uint32_t* L)
 // MODE 0: DepGraph closure + ChunkLinearization / ChunkLinearizationInfo against the hull oracle (any permutation)
 // MODE 1: PostLinearize of a topological linearization
 // MODE 2: Linearize improving a topological linearization     MODE 3: Linearize from scratch     MODE 4: Linearize from a non-topological order
-template <int MODE, int NTX>
+template <int MODE, int NTX, int REAL>
 static void run()
 {
     Cluster c; DepGraph<S> dg;
@@ -192,6 +214,7 @@ static void run()
         VASSERT(sorted, "chunk feerates are non-increasing");
         verif_observe(chunks.size()); for (int ci = 0; ci < NTX; ci++) if (ci < (int)chunks.size()) { verif_observe((uint64_t)chunks[ci].fee); verif_observe((uint64_t)chunks[ci].size); }
         if (NTX >= 2) { VWITNESS((int)chunks.size() == 1, "all merged into one chunk"); VWITNESS((int)chunks.size() == NTX, "every transaction its own chunk"); }
+        VASSERT(g_mul_in_range, "oracle products stay within the 10-bit magnitudes they are computed with");
         VREACH("end");
         return;
     }
@@ -219,8 +242,8 @@ static void run()
     VASSERT(is_perm(c, out), "output is a permutation of the cluster");
     VASSERT(is_topo(c, out), "output is topological (no transaction before one of its ancestors)");
     prefix_points(c, out, Pout);
-    // real chunking of the output: non-increasing feerates
-    {
+    if (REAL) {
+        // the real chunking and the real diagram comparison on the result (REAL entries only: the hull oracle below states the same facts without them)
         const std::vector<FeeFrac> chunks = ChunkLinearization(dg, std::span<const DepGraphIndex>(out, NTX));
         bool sorted = true;
         for (int ci = 0; ci + 1 < NTX; ci++) if (ci + 1 < (int)chunks.size() && mul((int32_t)chunks[ci + 1].fee, chunks[ci].size) > mul((int32_t)chunks[ci].fee, chunks[ci + 1].size)) sorted = false;
@@ -229,9 +252,12 @@ static void run()
             const std::vector<FeeFrac> chunks_in = ChunkLinearization(dg, std::span<const DepGraphIndex>(in, NTX));
             const std::partial_ordering cmp = CompareChunks(chunks, chunks_in);
             VASSERT(cmp == std::partial_ordering::greater || cmp == std::partial_ordering::equivalent, "CompareChunks(output, input) is never worse or incomparable");
-            VWITNESS(cmp == std::partial_ordering::greater, "strictly improved");
-            VWITNESS(cmp == std::partial_ordering::equivalent, "unchanged diagram");
         }
+    }
+    if (MODE == 1 || MODE == 2) {
+        const bool back = diagram_ge(Pin, Pout, NTX);
+        VWITNESS(!back, "strictly improved");
+        VWITNESS(back, "unchanged diagram");
     }
     if (MODE == 1 || MODE == 2) VASSERT(diagram_ge(Pout, Pin, NTX), "feerate diagram of the output is >= the diagram of the input at every point (hull oracle)");
     if (MODE == 1) VASSERT(chunks_connected(c, out, Pout), "PostLinearize: every chunk of the result is connected");
@@ -249,6 +275,7 @@ static void run()
         VWITNESS(!optimal && !best, "a non-optimal result that some topological order beats");
 #endif
     }
+    VASSERT(g_mul_in_range, "oracle products stay within the 10-bit magnitudes they are computed with");
     VREACH("end");
 }
 #define VERIF_ENTRY(name, ...) extern "C" void h_##name() { run<__VA_ARGS__>(); }
